@@ -130,7 +130,13 @@ func GenZFrame(r *rand.Rand, p []byte) *ZFrame {
 		window = 1024
 	}
 	if !ss {
+		// the window descriptor: exponent 0..10 (1 KiB .. 1 MiB) mostly, the rest of the small range
+		// (.. 64 MiB) otherwise; kinds window-large / window-max / window-above cover the range up to
+		// and beyond the decoder's bound (2^29)
 		e, m := r.Intn(11), r.Intn(8)
+		if r.Intn(4) == 0 {
+			e = 11 + r.Intn(6)
+		}
 		f.WD = byte(e<<3 | m)
 		window = (1 << (10 + uint(e))) + (1<<(10+uint(e)))/8*m
 	}
@@ -146,7 +152,10 @@ func GenZFrame(r *rand.Rand, p []byte) *ZFrame {
 func GenZStreams(r *rand.Rand, n, nBig int) ([]FStream, error) {
 	kinds := []string{"valid", "valid", "multi", "multi", "skip", "skip-only", "empty", "trunc", "trunc", "trunc-multi", "stray", "garbage",
 		"flip-sum", "flip-sum", "flip-nosum", "flip-hdr", "fcs-wrong", "reserved-bit", "dict", "big-window", "block-gt-window",
-		"boundary-srcerr", "inside-srcerr"}
+		"boundary-srcerr", "inside-srcerr", "window-large", "window-large", "window-above"}
+	if n >= 5000 { // thorough: the 2^29 boundary descriptor (a 512 MiB history buffer is reserved) more than once
+		kinds = append(kinds, "window-max")
+	}
 	type zspec struct {
 		kind    string
 		frames  []*ZFrame
@@ -160,6 +169,9 @@ func GenZStreams(r *rand.Rand, n, nBig int) ([]FStream, error) {
 			if i == n {
 				sp.kind = "block-gt-128k" // at least one per run: the 128 KiB boundary
 			}
+		}
+		if i == 1 {
+			sp.kind = "window-max" // one per run: exactly 2^29, the largest window the decoder takes
 		}
 		nf := 1
 		switch sp.kind {
@@ -210,6 +222,24 @@ func GenZStreams(r *rand.Rand, n, nBig int) ([]FStream, error) {
 					f.FCS = nil
 				}
 				f.WD = byte((20+r.Intn(11))<<3 | r.Intn(8))
+			case "window-large", "window-max", "window-above":
+				// Window_Descriptor over its whole range: 2 MiB .. 480 MiB (any mantissa), exactly
+				// 2^29 (accepted), the seven descriptors just above and everything beyond (refused)
+				f.FHD &^= 32
+				if f.FHD>>6 == 0 {
+					f.FCS = nil
+				}
+				switch sp.kind {
+				case "window-large":
+					f.WD = byte((11+r.Intn(8))<<3 | r.Intn(8))
+				case "window-max":
+					f.WD = 19 << 3
+				default:
+					f.WD = byte(19<<3 | (1 + r.Intn(7)))
+					if r.Intn(3) == 0 {
+						f.WD = byte((20+r.Intn(12))<<3 | r.Intn(8))
+					}
+				}
 			case "block-gt-window":
 				f.FHD &^= 32
 				if f.FHD>>6 == 0 {
@@ -272,7 +302,7 @@ func GenZStreams(r *rand.Rand, n, nBig int) ([]FStream, error) {
 			lastPiece, lastFrame = pieces[len(pieces)-1], sp.frames[len(sp.frames)-1]
 		}
 		switch sp.kind {
-		case "valid", "multi", "skip", "skip-only", "empty":
+		case "valid", "multi", "skip", "skip-only", "empty", "window-large", "window-max":
 			st.Wire, st.Intact = whole, true
 		case "trunc", "trunc-multi":
 			before := len(whole) - len(lastPiece)
@@ -302,7 +332,7 @@ func GenZStreams(r *rand.Rand, n, nBig int) ([]FStream, error) {
 			st.Wire = flipAt(r, whole, lastFrame.HeaderLen(), len(whole))
 		case "flip-hdr":
 			st.Wire = flipAt(r, whole, 0, lastFrame.HeaderLen())
-		case "fcs-wrong", "reserved-bit", "big-window", "block-gt-window", "block-gt-128k":
+		case "fcs-wrong", "reserved-bit", "big-window", "window-above", "block-gt-window", "block-gt-128k":
 			st.Wire, st.MustErr = whole, true
 		case "dict": // make the dictionary id non-zero
 			f := append([]byte(nil), whole...)
